@@ -21,6 +21,7 @@ verus! {
 //@include spec/evalctx_types.rs
 //@include spec/strmap.rs
 //@include spec/evalctx.rs
+//@include spec/known.rs
 //@include spec/sem_laws.rs
 //@fmtfns
 
